@@ -25,11 +25,12 @@ Section Reshare.
   Variable one : R.
   Variable lin : op -> R -> R.
   Variable bil : op -> R -> R -> R.
+  Variable nlin : op -> list R -> R.
 
   Notation rv := (rval R).
   Notation L := (RLeaf R).
-  Notation evals := (evals R r0 radd rmul rsub atom catom one lin bil).
-  Notation dnode := (deval_node R r0 radd rmul rsub atom catom one lin bil).
+  Notation evals := (evals R r0 radd rmul rsub atom catom one lin bil nlin).
+  Notation dnode := (deval_node R r0 radd rmul rsub atom catom one lin bil nlin).
   Notation T3 := (T3 R).
 
   (* environments only grow *)
@@ -97,6 +98,28 @@ Section Reshare.
     - destruct o; try discriminate; reflexivity.
     - cbn [mapM]. rewrite Hd. reflexivity.
     - destruct o; try discriminate; cbn [deval_node]; rewrite Ho; reflexivity.
+  Qed.
+
+  Lemma step_zeros t out out' id ins0 env ins :
+    is_leaf t = true -> emit (OZeros t) [] [] out = Ok (out', id) -> evals ins0 out env ins ->
+    evals ins0 out' (env ++ [L r0]) ins /\ znth (env ++ [L r0]) id = Ok (L r0).
+  Proof.
+    intros Lt H E. eapply emit_evals; eauto.
+    - reflexivity.
+    - cbn [deval_node]. rewrite Lt. reflexivity.
+  Qed.
+
+  Lemma leaves_map xs : leaves R (map L xs) = Some xs.
+  Proof. induction xs as [|x xs IH]; cbn; [reflexivity | now rewrite IH]. Qed.
+
+  Lemma step_nlin o deps xs out out' id ins0 env ins :
+    is_nlin_op o = true -> emit o deps [] out = Ok (out', id) -> evals ins0 out env ins ->
+    mapM (fun d => znth env d) deps = Ok (map L xs) ->
+    evals ins0 out' (env ++ [L (nlin o xs)]) ins /\ znth (env ++ [L (nlin o xs)]) id = Ok (L (nlin o xs)).
+  Proof.
+    intros Ho H E Hm. eapply emit_evals; eauto.
+    - destruct o; try discriminate; reflexivity.
+    - destruct o; try discriminate; cbn [deval_node is_lin_op is_nlin_op]; rewrite leaves_map; reflexivity.
   Qed.
 
   (* ---------- three TupleGet nodes on one tuple ---------- *)
@@ -214,6 +237,11 @@ Section Reshare.
   Definition shty (out : list node) (k : Z) : Prop := exists T, out_ty out k = Ok T /\ share_ty T.
 
   Lemma shty_ext a b k : ext a b -> shty a k -> shty b k.
+  Proof. intros X (T & HT & S). exists T. split; [eapply ext_out_ty; eauto | exact S]. Qed.
+
+  (* the compiled node [k] of a public node has an array/scalar type *)
+  Definition pubty (out : list node) (k : Z) : Prop := exists T, out_ty out k = Ok T /\ is_leaf T = true.
+  Lemma pubty_ext a b k : ext a b -> pubty a k -> pubty b k.
   Proof. intros X (T & HT & S). exists T. split; [eapply ext_out_ty; eauto | exact S]. Qed.
 
   (* ---------- reshare ---------- *)
